@@ -369,7 +369,56 @@ var allCombos = [][2]int{{1, 1}, {1, 0}, {0, 1}, {0, 0}}
 
 // ---------------------------------------------------------------- the generator
 
+// opGroup maps an op to the group named in the engine's gen_args ("ops=dec,rt,…"): each
+// property runs the groups relevant to it (all groups when no ops= argument is given).
+func opGroup(op string) string {
+	switch op {
+	case "dec", "redec", "dlp", "np", "next":
+		return "dec"
+	case "rtd":
+		return "rt"
+	case "ser":
+		return "ser"
+	case "flow", "vc":
+		return "flow"
+	}
+	return op
+}
+
+// filtered drops the ops outside the wanted groups and the cases that become empty.
+func filtered(emit func(string)) func(string) {
+	var want map[string]bool
+	for _, a := range os.Args {
+		if strings.HasPrefix(a, "ops=") {
+			want = map[string]bool{}
+			for _, g := range strings.Split(a[4:], ",") {
+				want[g] = true
+			}
+		}
+	}
+	if want == nil {
+		return emit
+	}
+	pendingReset := false
+	return func(l string) {
+		f := strings.Fields(l)
+		switch {
+		case len(f) == 0 || f[0][0] == '#':
+			emit(l)
+		case f[0] == "reset":
+			pendingReset = true
+		case len(f) >= 2 && want[opGroup(f[1])]:
+			if pendingReset {
+				emit("reset")
+				pendingReset = false
+			}
+			emit(l)
+		}
+	}
+}
+
 func gen(r *lib.Rand, tier string, emit func(string)) {
+	emit = filtered(emit)
 	e := &emitter{emit: emit, r: r}
 	thorough := tier == "thorough"
 	fixtures := append(built(), harvest()...)
